@@ -58,7 +58,8 @@ def respell(items, f):
 
 
 def vic_escape_ok(s):
-    return '"' not in s and "\\" not in s
+    """expressible as a vic literal with the same raw text: no quote, backslashes only as escaped pairs"""
+    return '"' not in s and "\\" not in s.replace("\\\\", "")
 
 
 def vic_of_tree(cmds, indent=""):
